@@ -447,11 +447,16 @@ func (fv *FnVerifier) ifaceContract(recvT types.Type, method string) *FuncContra
 			return fc
 		}
 	}
-	if fc := fv.eng.cs.Funcs["iface#"+ikey]; fc != nil {
+	// interface declared in the package that holds the contract file: undotted receiver type
+	if fc := fv.eng.cs.Funcs[n.Obj().Pkg().Path()+"#"+n.Obj().Name()+"."+method]; fc != nil {
 		return fc
 	}
-	// interface declared in the package that holds the contract file: undotted receiver type
-	return fv.eng.cs.Funcs[n.Obj().Pkg().Path()+"#"+n.Obj().Name()+"."+method]
+	// otherwise the contract another package states for it (the first one loaded; load order is the sorted package list)
+	fc := fv.eng.cs.Funcs["iface#"+ikey]
+	if fc != nil {
+		fv.note("interface contract borrowed from another package's contract file: " + ikey + " <- " + fc.PkgPath)
+	}
+	return fc
 }
 
 func isLoggerPkg(p string) bool {
@@ -471,6 +476,9 @@ func (fv *FnVerifier) callWritesBase(c *ssa.CallCommon) (keys []string, all bool
 		}
 		if fc.Pure || (fc.AssignsOK && len(fc.Assigns) == 0) {
 			return nil, false
+		}
+		if fc.AssignsOK {
+			return fv.assignKeysStatic(nil, fc, c.Signature(), c.Value.Type())
 		}
 		return nil, true
 	}
@@ -528,7 +536,17 @@ func (fv *FnVerifier) callWritesBase(c *ssa.CallCommon) (keys []string, all bool
 	if fc == nil || !fc.AssignsOK {
 		return nil, true
 	}
-	// static resolution of the assigns targets with dummy arguments
+	return fv.assignKeysStatic(fn, fc, fn.Signature, nil)
+}
+
+// assignKeysStatic resolves the heap keys of a contract's assigns targets with dummy arguments (recvT: the interface type
+// for interface-method contracts). Targets it cannot resolve make the answer `all`.
+func (fv *FnVerifier) assignKeysStatic(fn *ssa.Function, fc *FuncContract, sig *types.Signature, recvT types.Type) (keys []string, all bool) {
+	defer func() {
+		if r := recover(); r != nil {
+			keys, all = nil, true
+		}
+	}()
 	tmp := &FnVerifier{eng: fv.eng, fn: fn, fc: fc, mode: fv.mode, q: NewQuery(fv.mode), env: map[ssa.Value]Val{}, arrSort: fv.arrSort, arrBase: fv.arrBase,
 		names: map[string]Val{}, nameCount: map[string]int{}, notes: map[string]bool{}, strLits: map[string]string{}, structSeen: map[string]bool{}, axiomsDone: map[string]bool{}}
 	// declarations made while resolving the targets must land in the real query (struct sorts referenced by heap arrays)
@@ -549,9 +567,12 @@ func (fv *FnVerifier) callWritesBase(c *ssa.CallCommon) (keys []string, all bool
 	}()
 	dst := &State{heap: map[string]string{}, locks: map[string]string{}, alloc: "a"}
 	names := map[string]Val{}
-	sig := fn.Signature
 	if sig.Recv() != nil && fc.RecvName != "" {
 		names[fc.RecvName] = Val{T: sig.Recv().Type(), S: "r"}
+	}
+	if recvT != nil && fc.RecvName != "" {
+		tmp.q.declareConst("ri", "Iface")
+		names[fc.RecvName] = Val{T: recvT, S: "ri"}
 	}
 	for i, p := range fc.Params {
 		if i < sig.Params().Len() {
@@ -681,7 +702,11 @@ func (fv *FnVerifier) execCallCommon(c *ssa.CallCommon, instr *ssa.Call, st *Sta
 	}
 	if fn.Parent() != nil {
 		// anonymous function without captured variables, called or deferred directly: inline straight-line bodies
-		if r, done := fv.inlineFn(fn, nil, c, st, pos); done {
+		if mc, ok := c.Value.(*ssa.MakeClosure); ok {
+			if r, done := fv.inlineClosure(mc, c, st, pos); done {
+				return r
+			}
+		} else if r, done := fv.inlineFn(fn, nil, c, st, pos); done {
 			return r
 		}
 	}
